@@ -532,6 +532,29 @@ func genCb(t *rapid.T, reduce bool) *Cb {
 	return c
 }
 
+// genIndexArg: half of the time an integer within one step of [-len, len] (where the clamping rules
+// of 15.4.4.10/12/14/15 change branch), otherwise an odd argument.
+func genIndexArg(t *rapid.T, label string, n int) Val {
+	if rapid.Bool().Draw(t, label+"-near") {
+		return vn(strconv.Itoa(rapid.IntRange(-n-1, n+1).Draw(t, label+"-rel")))
+	}
+	return genOdd(t, label)
+}
+
+// genSearchIn: mostly an element the receiver really holds (so that the position found matters).
+func genSearchIn(t *rapid.T, elems []Val) Val {
+	var present []Val
+	for _, e := range elems {
+		if !e.hole() {
+			present = append(present, e)
+		}
+	}
+	if len(present) > 0 && rapid.IntRange(0, 9).Draw(t, "search-present") < 6 {
+		return present[rapid.IntRange(0, len(present)-1).Draw(t, "search-pos")]
+	}
+	return genSearch(t)
+}
+
 func genSearch(t *rapid.T) Val {
 	if rapid.IntRange(0, 5).Draw(t, "search-ref") == 0 {
 		return vref(rapid.SampledFrom([]string{"R", "X0", "V1", "T1"}).Draw(t, "search"))
@@ -571,10 +594,10 @@ func genMethodCase(t *rapid.T) methodCase {
 		}
 	case "slice":
 		for i, n := 0, nargs(0, 2); i < n; i++ {
-			c.Args = append(c.Args, genOdd(t, "index"))
+			c.Args = append(c.Args, genIndexArg(t, "index", len(c.Recv.Elems)))
 		}
 	case "splice":
-		c.Args = []Val{genOdd(t, "start"), genOdd(t, "deleteCount")}
+		c.Args = []Val{genIndexArg(t, "start", len(c.Recv.Elems)), genIndexArg(t, "deleteCount", len(c.Recv.Elems))}
 		for i, n := 0, nargs(0, 3); i < n; i++ {
 			c.Args = append(c.Args, genElem(t, "item"))
 		}
@@ -582,9 +605,9 @@ func genMethodCase(t *rapid.T) methodCase {
 		switch nargs(0, 5) {
 		case 0:
 		case 1, 2:
-			c.Args = []Val{genSearch(t)}
+			c.Args = []Val{genSearchIn(t, c.Recv.Elems)}
 		default:
-			c.Args = []Val{genSearch(t), genOdd(t, "fromIndex")}
+			c.Args = []Val{genSearchIn(t, c.Recv.Elems), genIndexArg(t, "fromIndex", len(c.Recv.Elems))}
 		}
 	default: // callback methods
 		reduce := isReduce(c.Method)
